@@ -77,7 +77,7 @@ def block_cells(spec):
     return {int(k): v for k, v in spec['cells'].items()}
 
 
-def make_unit(lay, zero, pool=None, via_defaults=False, defaults_opposite=False):
+def make_unit(lay, zero, pool=None, via_defaults=False, defaults_opposite=False, zero_style=None):
     """one unit of a layout -> (ModbusSlaveContext, {table: block}, RegFile)
     via_defaults: the addressing mode is configured through the process-wide Defaults.ZeroMode instead of the keyword"""
     off = 0 if zero else 1
@@ -106,6 +106,11 @@ def make_unit(lay, zero, pool=None, via_defaults=False, defaults_opposite=False)
             slave = ModbusSlaveContext(zero_mode=zero, **kw)
         finally:
             Defaults.ZeroMode = old
+    elif zero_style == 'int':
+        slave = ModbusSlaveContext(zero_mode=1 if zero else 0, **kw)       # the flag given as an integer (a value read from a configuration file)
+    elif zero_style == 'late':
+        slave = ModbusSlaveContext(zero_mode=not zero, **kw)               # the public attribute set after construction
+        slave.zero_mode = zero
     else:
         slave = ModbusSlaveContext(zero_mode=zero, **kw)       # tables not given get pymodbus' default block
     for t in defaulted:
@@ -126,10 +131,14 @@ def build(layout):
     pool = {} if layout.get('share_init_lists') else None
     for uid, lay in layout['units'].items():
         uid = int(uid)
-        slaves[uid], blocks[uid], models[uid] = make_unit(lay, zero, pool, layout.get('via_defaults', False), layout.get('defaults_opposite', False))
+        slaves[uid], blocks[uid], models[uid] = make_unit(lay, zero, pool, layout.get('via_defaults', False), layout.get('defaults_opposite', False), layout.get('zero_style'))
     if layout['single']:
         uid = next(iter(slaves))
         ctx = ModbusServerContext(slaves=slaves[uid], single=True)
+    elif layout.get('table') == 'defaultdict':
+        # the units kept in a dict subclass with a default: what is hosted is what was put in, asking for another id creates nothing
+        import collections
+        ctx = ModbusServerContext(slaves=collections.defaultdict(lambda: ModbusSlaveContext(zero_mode=True), slaves), single=False)
     else:
         ctx = ModbusServerContext(slaves=dict(slaves), single=False)
     return ctx, Model(layout, models), blocks
